@@ -391,6 +391,92 @@ fn sig(_c: &SizeCase, reason: &str) -> String {
     format!("c19:{}", kind)
 }
 
+// ---- dense sweep over target sizes (the layout depends on the width and height through integer
+// divisions and fits: a relation between the two that breaks it may exist for a handful of sizes only)
+
+#[derive(Clone, Debug, PartialEq, Eq, Hash, Serialize, Deserialize)]
+pub struct SweepCase {
+    pub w: u32,
+    pub h_from: u32,
+    pub h_to: u32,
+    pub colour: ColourType,
+}
+
+static SWEPT: std::sync::atomic::AtomicU64 = std::sync::atomic::AtomicU64::new(0);
+
+pub fn check_sweep(c: &SweepCase, info: &mut CaseInfo) -> Result<(), String> {
+    crate::dut::install_panic_hook();
+    info.nontrivial = true;
+    for h in c.h_from..=c.h_to {
+        let pic = render_ct(c.w, h, c.colour)?;
+        SWEPT.fetch_add(1, std::sync::atomic::Ordering::Relaxed);
+        if c.w >= 32 && h >= 32 {
+            judge(&pic, c.w, h).map_err(|e| format!("{}x{} ({:?}): {}", c.w, h, c.colour, e))?;
+        }
+    }
+    Ok(())
+}
+
+// ---- one TestImage value drawn on several targets in turn (Drawable::draw takes &self)
+
+#[derive(Clone, Debug, PartialEq, Eq, Hash, Serialize, Deserialize)]
+pub struct ReuseCase {
+    pub colour: ColourType,
+    /// (width, height, origin) of the targets, in drawing order
+    pub targets: Vec<(u32, u32, (i32, i32))>,
+}
+
+fn render_reuse<C: RgbColor>(targets: &[(u32, u32, (i32, i32))]) -> Result<Vec<Vec<u8>>, String> {
+    let img = TestImage::<C>::new();
+    let mut out = Vec::new();
+    for (w, h, o) in targets {
+        let mut cv = Canvas::<C>::at(o.0, o.1, *w, *h);
+        let r = std::panic::catch_unwind(std::panic::AssertUnwindSafe(|| img.draw(&mut cv)));
+        match r {
+            Err(_) => return Err(format!("TestImage panicked on a {}x{} target", w, h)),
+            Ok(Err(_)) => unreachable!(),
+            Ok(Ok(())) => out.push(cv.cells.iter().map(|c| classify(*c)).collect()),
+        }
+    }
+    Ok(out)
+}
+
+pub fn check_reuse(c: &ReuseCase, info: &mut CaseInfo) -> Result<(), String> {
+    crate::dut::install_panic_hook();
+    let pics = match c.colour {
+        ColourType::Rgb565 => render_reuse::<Rgb565>(&c.targets),
+        ColourType::Rgb666 => render_reuse::<Rgb666>(&c.targets),
+        ColourType::Rgb888 => render_reuse::<Rgb888>(&c.targets),
+    }?;
+    for (i, ((w, h, o), pic)) in c.targets.iter().zip(&pics).enumerate() {
+        // "on every target": the predicates hold whatever was drawn before on another target (the
+        // picture itself is not compared with a fresh one: the property does not fix it)
+        if *w >= 32 && *h >= 32 {
+            judge(pic, *w, *h).map_err(|e| format!("target {} ({}x{} at {:?}): {}", i, w, h, o, e))?;
+        }
+    }
+    info.nontrivial = c.targets.len() >= 2 && c.targets.windows(2).any(|p| p[0] != p[1]);
+    Ok(())
+}
+
+fn reuse_strategy() -> BoxedStrategy<ReuseCase> {
+    let dim = prop_oneof![5 => 32u32..=330, 1 => 0u32..40];
+    let origin = prop_oneof![3 => Just((0i32, 0i32)), 1 => (-50i32..50, -50i32..50)];
+    let target = (dim.clone(), dim, origin, any::<bool>()).prop_map(|(w, h, o, _)| (w, h, o));
+    (prop_oneof![Just(ColourType::Rgb565), Just(ColourType::Rgb666), Just(ColourType::Rgb888)], proptest::collection::vec(target, 2..=3), 0u8..4)
+        .prop_map(|(colour, mut targets, twist)| {
+            // frequent shapes of reuse: the same panel in portrait and landscape, a smaller target after a larger one
+            let (w, h, o) = targets[0];
+            match twist {
+                0 => targets[1] = (h, w, o),
+                1 => targets[1] = (w.saturating_sub(7).max(1), h.saturating_sub(9).max(1), o),
+                _ => {}
+            }
+            ReuseCase { colour, targets }
+        })
+        .boxed()
+}
+
 pub fn run(ctx: &Ctx) -> Report {
     let mut rep = Report::new("C19", "exploration");
     rep.assumptions = vec![
@@ -428,6 +514,48 @@ pub fn run(ctx: &Ctx) -> Report {
     run_enumerated(&mut sec, cases, ctx.workers, check, sig);
     rep.sections.push(sec);
 
+    // (the plain canvas does not depend on the batch feature: one build variant sweeps)
+    if cfg!(feature = "batch") {
+        let (long, short) = if ctx.tier == Tier::Thorough { (700u32, 500u32) } else { (500u32, 340u32) };
+        let colours: &[ColourType] = if ctx.tier == Tier::Thorough { &[ColourType::Rgb565, ColourType::Rgb666, ColourType::Rgb888] } else { &[ColourType::Rgb565] };
+        let mut sec = Section::new(
+            &format!("size-sweep[{}]", ctx.variant),
+            &format!(
+                "every target size in [32..={l}] x [32..={s}] and [32..={s}] x [32..={l}] ({} colour type(s)) on the clipping framebuffer: never panics, every pixel painted, white frame exactly on the outermost ring, pure red left of pure green left of pure blue (the symmetry comparison is left to the other sections); one case = one width with all its heights; evaluations counts sizes",
+                colours.len(),
+                l = long,
+                s = short
+            ),
+        );
+        sec.exhaustive = true;
+        let mut cases = Vec::new();
+        for &colour in colours {
+            for w in 32..=long {
+                let h_to = if w <= short { long } else { short };
+                // split the heights so that the cases are of similar cost
+                let mut h = 32;
+                while h <= h_to {
+                    let e = (h + 59).min(h_to);
+                    cases.push(SweepCase { w, h_from: h, h_to: e, colour });
+                    h = e + 1;
+                }
+            }
+        }
+        SWEPT.store(0, std::sync::atomic::Ordering::Relaxed);
+        let n_cases = cases.len() as u64;
+        run_enumerated(&mut sec, cases, ctx.workers, check_sweep, |_, r| format!("c19:sweep:{}", r.chars().skip_while(|c| *c != ':').take(30).collect::<String>()));
+        sec.extra.insert("cases".into(), serde_json::json!(n_cases));
+        sec.stats.evaluations = SWEPT.load(std::sync::atomic::Ordering::Relaxed);
+        rep.sections.push(sec);
+    }
+
+    let mut sec = Section::new(
+        &format!("one-image-several-targets[{}]", ctx.variant),
+        "one TestImage value drawn on 2..3 targets in turn (different sizes / origins; portrait after landscape; smaller after larger): every picture on a target of at least 32x32 satisfies the predicates, no draw panics; non-trivial = at least two different targets",
+    );
+    run_generated(&mut sec, ctx.seed ^ 0x19a, ctx.cases(3_000, 60_000), ctx.workers, reuse_strategy, check_reuse, |_, r| format!("c19:reuse:{}", r.chars().skip_while(|c| *c != ':').take(30).collect::<String>()));
+    rep.sections.push(sec);
+
     let mut sec = Section::new(&format!("generated-sizes[{}]", ctx.variant), "generated sizes up to 2048x2048, three colour types, same predicates");
     run_generated(&mut sec, ctx.seed, ctx.cases(1_500, 40_000), ctx.workers, size_strategy, check, sig);
     rep.sections.push(sec);
@@ -444,6 +572,10 @@ pub fn run(ctx: &Ctx) -> Report {
 pub fn replay(section: &str, case: &Value) -> Result<(), String> {
     if section.starts_with("real-displays") {
         check_display(&de::<DisplayCase>(case)?, &mut CaseInfo::default())
+    } else if section.starts_with("one-image-several-targets") {
+        check_reuse(&de::<ReuseCase>(case)?, &mut CaseInfo::default())
+    } else if section.starts_with("size-sweep") {
+        check_sweep(&de::<SweepCase>(case)?, &mut CaseInfo::default())
     } else {
         check(&de::<SizeCase>(case)?, &mut CaseInfo::default())
     }
